@@ -99,7 +99,7 @@ func DriveVal(out io.Writer, seed int64, runs, length int) (map[string]int, erro
 				case w < 62:
 					h := absx.Int(st["height"]) + int64(r.Intn(3))
 					e = M{"type": "RegisterPlan", "id": int64(pick(r, []int{1, 1, 1, 0})), "height": h, "op": pick(r, append(ops, l1.BadNotBech32)), "key": pick(r, append(keys, "nil")),
-						"execs": pick(r, [][]any{{"e2"}, {"e1", "e2"}, {l1.BadNotBech32}})}
+						"execs": pick(r, [][]any{{"e2"}, {"e1", "e2"}, {"e2", "e2"}, {"e1", "e2", "e1"}, {l1.BadNotBech32}})}
 				default:
 					e = M{"type": "EndBlock"}
 				}
